@@ -3,6 +3,7 @@ package main
 import (
 	"go/ast"
 	"go/types"
+	"sort"
 	"strings"
 )
 
@@ -200,5 +201,238 @@ func (c *Ctx) ruleLookupViaIndex(rule string, pkg string, floor int) {
 		} else {
 			R.OK(rule, fi.Key, P.Pos(fi.Decl), "answers only from p.lazyInit()")
 		}
+	}
+}
+
+// R-HAS-MEMBERSHIP: Has(x) of a descriptor list type answers membership in
+// List. List is in declaration order, so Has may scan it linearly, answer from
+// a map filled from a loop over the whole list, or search a copy of the whole
+// list that is sorted under the same once. Indexing or slicing List itself (a
+// binary search over the declaration order) or searching a slice that is never
+// sorted answers wrongly for lists that are not declared in ascending order.
+func (c *Ctx) ruleHasMembership(rule string, pkg string, floor int) {
+	R, P := c.R, c.P
+	R.Rule(rule, "every Has method of a list type with a List field answers from (a) a linear range over List, (b) a map that a loop over the whole List fills, or (c) a slice that is a copy of the whole List and is sorted (sort.Slice/sort.Sort/slices.Sort*) under the type's once; List itself is never indexed or sliced in Has", floor)
+	byType := map[string][]*FuncInfo{}
+	for _, fi := range P.FuncsIn(pkg) {
+		if fi.Decl.Body == nil || fi.Decl.Recv == nil {
+			continue
+		}
+		if sig, ok := fi.Obj.Type().(*types.Signature); ok && sig.Recv() != nil {
+			byType[namedTypeName(sig.Recv().Type())] = append(byType[namedTypeName(sig.Recv().Type())], fi)
+		}
+	}
+	for _, tn := range sortedKeysFI(byType) {
+		var has *FuncInfo
+		for _, fi := range byType[tn] {
+			if fi.Obj.Name() == "Has" {
+				has = fi
+			}
+		}
+		if has == nil {
+			continue
+		}
+		recvT := has.Obj.Type().(*types.Signature).Recv().Type()
+		if p, ok := recvT.(*types.Pointer); ok {
+			recvT = p.Elem()
+		}
+		st, ok := recvT.Underlying().(*types.Struct)
+		if !ok {
+			continue
+		}
+		hasList := false
+		for i := 0; i < st.NumFields(); i++ {
+			if st.Field(i).Name() == "List" {
+				hasList = true
+			}
+		}
+		if !hasList {
+			continue
+		}
+		fieldOf := func(info *types.Info, e ast.Expr) string {
+			se, ok := unparen(e).(*ast.SelectorExpr)
+			if !ok {
+				return ""
+			}
+			v, ok := info.Uses[se.Sel].(*types.Var)
+			if !ok || !v.IsField() {
+				return ""
+			}
+			xt := info.TypeOf(se.X)
+			if xt == nil || namedTypeName(xt) != tn {
+				return ""
+			}
+			return v.Name()
+		}
+		// what the type's methods establish
+		filled, sortedCopy, copied := map[string]bool{}, map[string]bool{}, map[string]bool{}
+		for _, fi := range byType[tn] {
+			info := fi.Info()
+			walkAll(fi.Decl.Body, func(n ast.Node) bool {
+				switch x := n.(type) {
+				case *ast.RangeStmt:
+					if fieldOf(info, x.X) == "List" {
+						walkAll(x.Body, func(m ast.Node) bool {
+							if as, ok := m.(*ast.AssignStmt); ok {
+								for _, l := range as.Lhs {
+									if ie, ok := unparen(l).(*ast.IndexExpr); ok {
+										if f := fieldOf(info, ie.X); f != "" {
+											filled[f] = true
+										}
+									}
+								}
+							}
+							return true
+						})
+					}
+				case *ast.AssignStmt:
+					if len(x.Lhs) == 1 && len(x.Rhs) == 1 {
+						if f := fieldOf(info, x.Lhs[0]); f != "" {
+							if call, ok := unparen(x.Rhs[0]).(*ast.CallExpr); ok && len(call.Args) == 2 && call.Ellipsis.IsValid() {
+								if id, ok := call.Fun.(*ast.Ident); ok && id.Name == "append" && fieldOf(info, call.Args[0]) == f && fieldOf(info, call.Args[1]) == "List" {
+									copied[f] = true
+								}
+							}
+						}
+					}
+				case *ast.CallExpr:
+					k := calleeKey(info, x)
+					if (strings.HasPrefix(k, "sort.") || strings.HasPrefix(k, "slices.Sort")) && len(x.Args) >= 1 {
+						if f := fieldOf(info, x.Args[0]); f != "" && f != "List" {
+							sortedCopy[f] = true
+						}
+					}
+				}
+				return true
+			})
+		}
+		info := has.Info()
+		var bad []string
+		basis := 0
+		var badPos ast.Node
+		walkAll(has.Decl.Body, func(n ast.Node) bool {
+			switch x := n.(type) {
+			case *ast.IndexExpr:
+				f := fieldOf(info, x.X)
+				if f == "List" {
+					bad = append(bad, "indexes List (declaration order) directly")
+					badPos = x
+				}
+			case *ast.SliceExpr:
+				if fieldOf(info, x.X) == "List" {
+					bad = append(bad, "slices List (declaration order) directly")
+					badPos = x
+				}
+			case *ast.RangeStmt:
+				if fieldOf(info, x.X) == "List" {
+					basis++
+				}
+			case *ast.SelectorExpr:
+				f := fieldOf(info, x)
+				if f == "" || f == "List" {
+					return true
+				}
+				v := info.Uses[x.Sel].(*types.Var)
+				switch v.Type().Underlying().(type) {
+				case *types.Map:
+					basis++
+					if !filled[f] {
+						bad = append(bad, "answers from map `"+f+"`, which no loop over the whole List fills")
+						badPos = x
+					}
+				case *types.Slice:
+					basis++
+					if !(copied[f] && sortedCopy[f]) {
+						bad = append(bad, "searches slice `"+f+"`, which is not established as a sorted copy of List")
+						badPos = x
+					}
+				}
+			}
+			return true
+		})
+		switch {
+		case len(bad) > 0:
+			R.Bad(rule, has.Key, P.Pos(badPos), "Has "+strings.Join(uniqStrings(bad), "; ")+": for a list not declared in ascending order the membership answer is wrong although Get(i) lists the element")
+		case basis == 0:
+			R.Unk(rule, has.Key, P.Pos(has.Decl), "membership basis not recognised (no range over List, filled map or sorted copy)")
+		default:
+			R.OK(rule, has.Key, P.Pos(has.Decl), "answers from a linear scan, a map filled from the whole List, or a sorted copy of List")
+		}
+	}
+}
+
+func sortedKeysFI(m map[string][]*FuncInfo) []string {
+	var ks []string
+	for k := range m {
+		ks = append(ks, k)
+	}
+	sort.Strings(ks)
+	return ks
+}
+
+func uniqStrings(in []string) []string {
+	seen := map[string]bool{}
+	var out []string
+	for _, s := range in {
+		if !seen[s] {
+			seen[s] = true
+			out = append(out, s)
+		}
+	}
+	return out
+}
+
+// R-MAP-ENTRY-LINKS: MapKey/MapValue of a map field are the fields numbered 1
+// and 2 of the entry message, whatever their declaration order; the entry's
+// own ByNumber view has to agree with the links.
+func (c *Ctx) ruleMapEntryLinks(rule string) {
+	R, P := c.R, c.P
+	R.Rule(rule, "filedesc.(*Field).MapKey / MapValue return nil exactly when !IsMap(), and otherwise fd.Message().Fields().ByNumber(k) with constant k = 1 (key) / 2 (value): the links are by field number, not by position", 2)
+	for name, want := range map[string]int64{"MapKey": 1, "MapValue": 2} {
+		fi := c.need(rule, "internal/filedesc.(*Field)."+name)
+		if fi == nil {
+			continue
+		}
+		info := fi.Info()
+		var problems []string
+		nret := 0
+		walkAll(fi.Decl.Body, func(n ast.Node) bool {
+			rs, ok := n.(*ast.ReturnStmt)
+			if !ok || len(rs.Results) != 1 {
+				return true
+			}
+			nret++
+			e := unparen(rs.Results[0])
+			if id, ok := e.(*ast.Ident); ok && id.Name == "nil" {
+				// must be guarded by !fd.IsMap()
+				g := enclosingGuards(fi.Decl.Body, rs)
+				if !(strings.HasPrefix(g, "!") && strings.HasSuffix(g, ".IsMap()") && !strings.Contains(g, ";")) {
+					problems = append(problems, "returns nil outside the `!fd.IsMap()` guard")
+				}
+				return true
+			}
+			call, ok := e.(*ast.CallExpr)
+			if !ok {
+				problems = append(problems, "returns `"+exprStr(e)+"`, not a ByNumber lookup")
+				return true
+			}
+			se, ok := call.Fun.(*ast.SelectorExpr)
+			if !ok || se.Sel.Name != "ByNumber" || len(call.Args) != 1 {
+				problems = append(problems, "returns `"+exprStr(e)+"`, which selects the entry field by something other than its number")
+				return true
+			}
+			if !strings.HasSuffix(exprStr(se.X), ".Message().Fields()") {
+				problems = append(problems, "looks the number up in `"+exprStr(se.X)+"`, not in the entry message's fields")
+			}
+			tv := info.Types[call.Args[0]]
+			if v, ok := constantInt64(tv.Value); !ok || v != want {
+				problems = append(problems, "looks up field number `"+exprStr(call.Args[0])+"` instead of "+itoa(int(want)))
+			}
+			return true
+		})
+		if nret < 2 {
+			problems = append(problems, "expected a nil return for non-map fields and a ByNumber return")
+		}
+		R.Check(len(problems) == 0, rule, fi.Key, P.Pos(fi.Decl), "nil iff !IsMap(); otherwise entry field number "+itoa(int(want)), strings.Join(problems, "; ")+": for an entry message that does not declare key = 1 first and value = 2 second the link disagrees with the entry's own ByNumber/ByName views")
 	}
 }
